@@ -163,6 +163,15 @@ OutsiderSend(l) ==
   /\ last' = <<"OutsiderSend", l, "-">>
   /\ UNCHANGED <<st, buf, sent, got, winner, rwin, result, started, deadline>>
 
+\* an outsider dials a party that is already done (it has its result, or its listener has fired): the listener is
+\* closed by then, so the connection is refused and nothing happens.  (scriptPos beyond the script marks "tried".)
+LateDial(l) ==
+  /\ ~Honest(l) /\ st[l].S = "-" /\ st[l].R = "-" /\ scriptPos[l] <= Len(Script[l])
+  /\ LET p == IF HasS(l) THEN "S" ELSE "R" IN result[p] # "-" \/ (IF p = "S" THEN winner ELSE rwin) # "-"
+  /\ scriptPos' = [scriptPos EXCEPT ![l] = Len(Script[l]) + 1]
+  /\ last' = <<"LateDial", l, "-">>
+  /\ UNCHANGED <<st, buf, wire, sent, got, winner, rwin, result, started, deadline>>
+
 \* ---- loss -------------------------------------------------------------------------------------------------
 \* a hung-up end closes its socket: the other end (if ours) sees connectionLost; so does a cut
 PeerGone(l, p) ==
@@ -193,7 +202,7 @@ Deadline(p) ==
   /\ last' = <<"Deadline", p, "-">>
   /\ UNCHANGED <<buf, wire, sent, got, winner, rwin, started, scriptPos>>
 
-Next == (\E p \in Party : Start(p)) \/ (\E l \in Links : Established(l) \/ RelayOk(l) \/ OutsiderSend(l)
+Next == (\E p \in Party : Start(p)) \/ (\E l \in Links : Established(l) \/ RelayOk(l) \/ OutsiderSend(l) \/ LateDial(l)
                                    \/ \E p \in Party : Deliver(l, p) \/ DeliverPart(l, p) \/ PeerGone(l, p))
         \/ (\E p \in Party : Deadline(p))
 Spec == Init /\ [][Next]_vars /\ WF_vars(Next)
